@@ -3,7 +3,8 @@
    the order the scheduler goroutine processed them, each with what the implementation was
    OBSERVED to do (returned ids, "schedule"/"run"/"added" log records, Entries() results,
    completion of Stop's contexts, job invocations stamped with the injected clock, the instant
-   of the timer the goroutine armed).  [check_case] replays the events on the model and
+   of the timer the goroutine armed, and the points at which Remove / Stop calls RETURNED to
+   their callers - RemoveRet / StopRet - relative to the scheduler's events).  [check_case] replays the events on the model and
    compares, and evaluates the spec oracle on the observation. *)
 From Kit Require Export C05.Model C05.Spec Lib.CheckLib.
 Local Open Scope Z_scope.
@@ -74,11 +75,14 @@ Fixpoint first_bad (s : state csched) (items : list item) (k : Z) : Z :=
 Definition obs_of (it : item) : obs csched := fst it.
 
 (* 0 = agree and oracle holds; 1 = model and implementation differ; 2 = the implementation's
-   observed behaviour violates the spec. *)
+   observed behaviour violates the spec; 3 = it violates the spec AND the model does not
+   reproduce it (the model meets the spec - C05_model_meets_spec - so an oracle failure always
+   comes with a model difference; 3 is what a real violation yields). *)
 Definition check_case (c : case) : Z :=
   match c with
   | CScript t0 items =>
-      if negb (oracle cnext (map obs_of items)) then 2
+      if negb (oracle cnext (map obs_of items))
+      then (if replay (init t0) items then 2 else 3)
       else if negb (replay (init t0) items) then 1 else 0
   end.
 
@@ -116,7 +120,9 @@ Example check_demo :
       (Snapshot, OSnap [(1, Some 9000000000, Some 2000000000); (2, None, Some 3000000000)], [],
          Some 9000000000);
       (Removed 7000000000 1, ONone, [], None);
+      (RemoveRet 1, ONone, [], None);
       (Stop, OCtx false, [], None);
+      (StopRet, ONone, [], None);
       (JobRet, ONone, [], None); (JobRet, ONone, [], None); (JobRet, ONone, [], None);
       (CtxPoll, OCtxs [true], [], None) ]) = 0.
 Proof. vm_compute. reflexivity. Qed.
